@@ -369,7 +369,25 @@ class Frame:
             p.env[st.name] = Opaque(f"class {st.name}")
             return [p]
         if isinstance(st, ast.Assert):
-            return [q for q, _ in self.expr(st.test, p)]
+            out = []
+            for q, tt in self.expr(st.test, p):
+                if q.status != "live":
+                    out.append(q)
+                    continue
+                txt = ast.unparse(st.test)
+                ok_ = q.fork()
+                ok_.conds.append((txt, True, tt.key()))
+                out.append(ok_)
+                bad_ = q.fork()
+                bad_.conds.append((txt, False, tt.key()))
+                msgs = self.expr(st.msg, bad_) if st.msg is not None else [(bad_, Const(None))]
+                for q2, mt in msgs:
+                    if q2.status == "live":
+                        q2.status = "raise"
+                        q2.exc = ("AssertionError", "none", st.lineno)
+                        self.ev(q2, "raise", text="AssertionError", line=st.lineno, target=Sym("new:AssertionError", (mt,)), args=(Sym("none"),))
+                    out.append(q2)
+            return out
         if isinstance(st, ast.Delete):
             return [p]
         self.ctx.note(f"unsupported statement {type(st).__name__} in {self.fname}")
@@ -455,7 +473,20 @@ class Frame:
                             return False
                 return None
             if isinstance(t, Const):
-                return False if all(isinstance(n, ClassInfo) for n in names) else None
+                if all(isinstance(n, ClassInfo) for n in names):
+                    return False
+                import builtins as _b
+                bt = []
+                for n in names:
+                    if isinstance(n, ClassInfo):
+                        continue
+                    ty = getattr(_b, n.split(".")[-1], None) if isinstance(n, str) else None
+                    if not isinstance(ty, type):
+                        return None
+                    bt.append(ty)
+                if isinstance(t.v, _Sentinel):
+                    return False
+                return isinstance(t.v, tuple(bt))
             if isinstance(t, Sym) and t.head in ("list", "call:list", "list[]"):
                 if "list" in [n for n in names if isinstance(n, str)]:
                     return True
@@ -922,7 +953,7 @@ class Frame:
             elif isinstance(t, Sym) and t.head == "class":
                 out.append((q, t))  # Option[Options] -> Option
             else:
-                if isinstance(e.ctx, ast.Load) and isinstance(t, Sym) and t.head in ("global", "name", "attr:__dict__") or (isinstance(t, Sym) and t.head.startswith("attr:")):
+                if isinstance(e.ctx, ast.Load) and isinstance(t, Sym) and not isinstance(e.slice, ast.Slice):
                     self.ev(q, "call", text="getitem", target=t, args=(idx,), line=e.lineno)
                 out.append((q, Sym("getitem", (t, idx))))
         return out
@@ -1334,6 +1365,11 @@ class Frame:
                 return [(p, nf)]
         if short in ("isinstance", "callable", "hasattr", "len", "str", "repr", "bool", "id", "type", "dir", "print"):
             return [(p, Sym("call:" + short, tuple(pos)))]
+        if callee.args and not callee.text:
+            # calling the result of a symbolic expression (e.g. getattr(obj, name)(...))
+            kws = tuple(Sym("kw:" + k, (v,)) for k, v in sorted(kw.items()))
+            self.ev(p, "call", text=name, target=callee, args=tuple(pos) + kws, line=line)
+            return [(p, Sym("callres", (callee,) + tuple(pos) + kws))]
         self.ev(p, "call", text=name, args=tuple(pos) + tuple(Sym("kw:" + k, (v,)) for k, v in kw.items()), line=line)
         return [(p, Sym("call:" + name, tuple(pos) + tuple(Sym("kw:" + k, (v,)) for k, v in sorted(kw.items()))))]
 
